@@ -21,6 +21,7 @@ func runC11(c *Ctx, r *Run) {
 	r.Rule("DEP-N1", "FROST nonces: D_i and E_i depend on the secret share, the session hash, the message and fresh randomness")
 	r.Rule("DEP-N2", "BIP-340 nonce: depends on secret key, message, public key and aux (reader or atomic counter)")
 	r.Rule("START-S3", "the session identifier that separates two signing sessions reaches the session hash the nonces are derived from")
+	r.Rule("SPEC-TH", "TaggedHash streams SHA256(tag) twice and then every data field, whole, into one SHA-256")
 	r.Rule("DEP-N3", "no nonce is taken from or cached in package-level state")
 
 	// ---- FROST
@@ -128,6 +129,9 @@ func runC11(c *Ctx, r *Run) {
 
 	r.Require("DEP-N1", 8)
 	r.Require("DEP-N2", 4)
+	// the BIP-340 nonce absorbs the whole message only if the tagged hash absorbs all of its data
+	checkTaggedHashShapeAs(c, r, "SPEC-TH")
+	r.Require("SPEC-TH", 4)
 	checkSessionIDForwarded(c, r, "START-S3")
 	r.Require("START-S3", 8)
 	r.Require("DEP-N3", 2)
